@@ -28,7 +28,7 @@ RULE = ('one run = one seeded history on FileStorage (classes without '
         'undoMultiple with two connections; non-trivial = >= 1 undo '
         'committed or refused; distinct = outcome sequence')
 BUDGET = {'quick': {'runs': 8000, 'wall': 300, 'chunk': 25},
-          'thorough': {'runs': 500000, 'wall': 1800, 'chunk': 100}}
+          'thorough': {'runs': 500000, 'wall': 1200, 'chunk': 100}}
 ASSUMPTIONS = [
     'where the property is silent (undo while the current state is an '
     'un-creation other than the undone record) refusal and the '
